@@ -866,6 +866,9 @@ func Truthy(v interface{}) bool {
 		return x != ""
 	case errValue, fnValue:
 		return true
+	case ZeroErr:
+		// (only ever met in a slot of an interface type that has methods: what counts is that the slot is not empty)
+		return true
 	}
 	rv := reflect.ValueOf(v)
 	switch rv.Kind() {
